@@ -111,7 +111,7 @@ func (g *dg) val(depth int) string {
 
 func (g *dg) form() string {
 	v := g.val(3)
-	switch g.n(0, 17, "form") {
+	switch g.n(0, 22, "form") {
 	case 0:
 		return v
 	case 1:
@@ -146,6 +146,25 @@ func (g *dg) form() string {
 		return fmt.Sprintf("(json:load-string (json:dump-string %s))", g.mapExpr(2))
 	case 16:
 		return fmt.Sprintf("(s:validate (s:make-validator \"t\" s:sorted-map (s:has-key \"a\" s:int) (s:no-other-keys)) %s)", g.mapExpr(2))
+	case 20, 21:
+		// several members of one JSON object fail to load: which error is reported?
+		big := []string{"99999999999999999999", "88888888888888888888", "123456789012345678901234", "-77777777777777777777", "1e400", "[1,2,3,4,5,6,7,8,9]"}
+		var mem []string
+		for i, n := 0, g.n(2, 5, "nmem"); i < n; i++ {
+			mem = append(mem, fmt.Sprintf("\\\"%s\\\":%s", g.pick("jk", keyPool...), g.pick("jv", big...)))
+		}
+		mode := g.pick("jmode", "", " :exact-integers true", " :string-numbers true")
+		return fmt.Sprintf("(handler-bind ((condition (lambda (c &rest d) (probe 1 c d)))) (json:load-string \"{%s}\"%s))", strings.Join(mem, ","), mode)
+	case 18, 19:
+		// keyword binding: unknown keywords (several at once), omitted keys
+		keys := []string{"a", "b", "secret", "host", "zz", "k1"}
+		formals := []string{g.pick("f1", keys...), g.pick("f2", keys...)}
+		var call strings.Builder
+		for i, n := 0, g.n(0, 4, "nkw"); i < n; i++ {
+			fmt.Fprintf(&call, " :%s %d", g.pick("kw", keys...), g.n(0, 99, "kwv"))
+		}
+		return fmt.Sprintf("(defun kf (&key %s %s) (list %s %s))\n(handler-bind ((condition (lambda (c &rest d) (probe 1 c d)))) (kf%s))",
+			formals[0], formals[1], formals[0], formals[1], call.String())
 	default:
 		return fmt.Sprintf("(assert (nil? %s) \"failed on {}\" %s)", v, g.val(2))
 	}
@@ -329,12 +348,71 @@ func checkProcess(b Batch, c *vcommon.Ctx) *vcommon.Failure {
 	return nil
 }
 
+// ---------- what another runtime evaluated immediately before must not matter ----------
+
+type Pred struct {
+	A Prog `json:"a"`
+	B Prog `json:"b"`
+	V Prog `json:"v"`
+}
+
+func genKwProg() *rapid.Generator[Prog] {
+	return rapid.Custom(func(t *rapid.T) Prog {
+		g := &dg{t}
+		keys := []string{"a", "b", "secret", "host"}
+		var fs []string
+		for i, n := 0, rapid.IntRange(1, 3).Draw(t, "ncalls"); i < n; i++ {
+			f1, f2 := g.pick("f1", keys...), g.pick("f2", keys...)
+			var call strings.Builder
+			for j, m := 0, g.n(0, 3, "nkw"); j < m; j++ {
+				fmt.Fprintf(&call, " :%s %d", g.pick("kw", append(keys, "zz", "yy")...), g.n(1, 99, "kwv"))
+			}
+			if g.n(0, 5, "odd") == 0 {
+				call.WriteString(" :a") // odd number of keyword arguments
+			}
+			if g.n(0, 7, "nonkw") == 0 {
+				call.WriteString(" 5 6") // a non-keyword where a keyword is expected
+			}
+			fs = append(fs, fmt.Sprintf("(defun kf%d (&key %s %s) (list %s %s))\n(handler-bind ((condition (lambda (c &rest d) (probe %d c d)))) (probe %d (kf%d%s)))", i, f1, f2, f1, f2, i, i, i, call.String()))
+		}
+		return Prog{strings.Join(fs, "\n") + "\n"}
+	})
+}
+
+func genPred() *rapid.Generator[Pred] {
+	return rapid.Custom(func(t *rapid.T) Pred {
+		pick := func(l string) Prog {
+			if rapid.IntRange(0, 2).Draw(t, l+"-kind") > 0 {
+				return genKwProg().Draw(t, l)
+			}
+			return genProg().Draw(t, l)
+		}
+		return Pred{A: pick("a"), B: pick("b"), V: pick("v")}
+	})
+}
+
+func checkPred(p Pred, c *vcommon.Ctx) *vcommon.Failure {
+	_ = transcript(p.A.Src)
+	t1 := transcript(p.V.Src)
+	_ = transcript(p.B.Src)
+	t2 := transcript(p.V.Src)
+	if strings.Contains(p.V.Src, "&key") {
+		c.Class("victim-uses-keywords")
+	}
+	c.NonTrivial(p.A.Src + "\x00" + p.B.Src + "\x00" + p.V.Src)
+	if t1 != t2 {
+		return vcommon.Failf("predecessor/differs", "the transcript of a program depends on what ANOTHER runtime evaluated just before it in the same process\nprogram:\n%s--- after predecessor A:\n%s\n%s--- after predecessor B:\n%s\n%s", p.V.Src, p.A.Src, t1, p.B.Src, t2)
+	}
+	return nil
+}
+
 func TestCheck(t *testing.T) {
 	if os.Getenv("C10_BATCH_FILE") != "" {
 		t.Skip("child mode")
 	}
 	vcommon.Main(t, "C10",
 		vcommon.S("repeat", 16000, 400000, genCase(), checkRepeat),
+		vcommon.S("predecessor", 24000, 600000, genPred(), checkPred),
 		vcommon.S("process", 480, 10000, genBatch(), checkProcess),
 	)
 }
